@@ -55,7 +55,8 @@ pub struct Tier {
 pub fn tier_for(prop: &str, tier: &str) -> Tier {
     let quick = tier != "thorough";
     let (runs, secs) = match (prop, quick) {
-        ("C01", true) | ("C09", true) | ("C10", true) | ("C12", true) => (12_000, 40),
+        ("C10", true) => (7_000, 40),
+        ("C01", true) | ("C09", true) | ("C12", true) => (12_000, 40),
         ("C01", false) | ("C09", false) | ("C10", false) | ("C12", false) => (1_500_000, 480),
         ("C03", true) | ("C05", true) => (10_000, 40),
         ("C03", false) | ("C05", false) => (1_000_000, 480),
